@@ -46,6 +46,7 @@ THEOREMS = [
     "FaxVerif.C18.str_in_context",
     "FaxVerif.C18.render_trigraph_free",
     "FaxVerif.C18.str_roundtrip_trigraphs",
+    "FaxVerif.C18.str_in_context_trigraphs",
     "FaxVerif.C18.cstr_roundtrip_partial",
     "FaxVerif.C18.cstr_nul_counterexample",
     "FaxVerif.C18.bool_roundtrip",
@@ -64,7 +65,9 @@ THEOREMS = [
     "FaxVerif.C18.const_ok_partial",
     "FaxVerif.C18.const_ok_counterexample",
     "FaxVerif.C18.bank_roundtrip",
+    "FaxVerif.C18.bank_roundtrip_trigraphs",
     "FaxVerif.C18.names_roundtrip",
+    "FaxVerif.C18.names_roundtrip_trigraphs",
     "FaxVerif.C18.names_roundtrip_on_repaired_inputs",
 ]
 RULE = (
@@ -358,6 +361,34 @@ def probe_escape_table() -> Tuple[List[Tuple[int, List[int]]], str]:
     return rows, shape
 
 
+def probe_homomorphism(rows: List[Tuple[int, List[int]]]) -> str:
+    """Is `as_cpp_string_literal` the concatenation of its per-character images? Probed on all pairs and triples over
+    the special characters and the keys of the table, on runs of `?` before every trigraph character, and on a fixed
+    pseudo-random sample. "ok", or the first string on which it is not (then the per-character table does not describe
+    the function and the theorems over the table say nothing about it)."""
+    import itertools
+    import random as _r
+
+    try:
+        from func_adl_xAOD.common.ast_to_cpp_translator import as_cpp_string_literal as f
+    except Exception:
+        def f(x):
+            r = impl_const(x)
+            return r["ok"]["text"] if "ok" in r else "<" + r["err"] + ">"
+
+    img = {chr(c): uncp(i) for c, i in rows}
+    alpha = sorted(set(['"', "\\", "\n", "\r", "\t", "?", "/", "=", "'", "(", "-", "a", " ", "\0", "\u00e9"] + [chr(c) for c, _ in rows[:40]]))
+    probes = ["".join(t) for k in (2, 3) for t in itertools.product(alpha, repeat=k)] + q_runs()
+    rnd = _r.Random(18)
+    probes += ["".join(rnd.choice(alpha + list(PLAIN[:8])) for _ in range(rnd.randint(4, 12))) for _ in range(2000)]
+    for x in probes:
+        want = '"' + "".join(img.get(ch, ch) for ch in x) + '"'
+        got = f(x)
+        if got != want:
+            return "unrecognised: as_cpp_string_literal(%r) = %r is not the concatenation of the per-character images %r" % (x, got[:60], want[:60])
+    return "ok"
+
+
 def _segments(line1: str, line2: Optional[str]) -> List[Tuple[str, str]]:
     """Split a probed line at the sentinels. `line2` is the same line probed with names that carry
     a quote and a backslash after the sentinel, to tell a verbatim copy from an escaped one."""
@@ -449,7 +480,8 @@ def translate(ctx):
     for b in BACKENDS:
         p = probe_lines(b)
         book[b], fill[b] = p["book"], p["fill"]
-    _LINES_CACHE["book"], _LINES_CACHE["fill"], _LINES_CACHE["rows"] = book, fill, rows
+    homo = probe_homomorphism(rows)
+    _LINES_CACHE["book"], _LINES_CACHE["fill"], _LINES_CACHE["rows"], _LINES_CACHE["homomorphic"] = book, fill, rows, homo
     rows_s = ", ".join("(%d, [%s])" % (c, ", ".join(str(x) for x in img)) for c, img in rows)
     content = "\n".join(
         [
@@ -464,6 +496,10 @@ def translate(ctx):
             "",
             "/-- Shape of the single-character images: `\"ok\"` when every image is `\"` ++ text ++ `\"`. -/",
             f"def escapeShape : String := {lean_str(shape)}",
+            "",
+            "/-- `\"ok\"` when, on the multi-character probe strings, the function equals the concatenation of the",
+            "per-character images (it is not context dependent); otherwise the first probe on which it differs. -/",
+            f"def escapeHomomorphic : String := {lean_str(homo)}",
             "",
             lean_seg_table(
                 "bookLines",
@@ -493,7 +529,32 @@ WIDE = ["\u00e9", "\u00fc", "\u00df", "\u03a9", "\u20ac", "\u4e2d", "\u6587", "\
 NAMECH = PLAIN + " .-+[]()/:,;#@!$%^&*=<>|~`'{}?"
 
 
+TRI_CHARS = "=/'()!<>-"
+
+
+def q_runs(embed: bool = True) -> List[str]:
+    """runs of 1-6 `?` before every trigraph character, alone and inside longer strings — the inputs on which an escaper
+    that treats `?` by context (pairs, runs) rather than one by one goes wrong under trigraph replacement"""
+    out = []
+    for n in range(1, 7):
+        for t in TRI_CHARS:
+            r = "?" * n + t
+            out.append(r)
+            if embed:
+                out += ["ab" + r + "c", r + r, "?" + t + " " + r + "?"]
+    return out
+
+
+def gen_qrun(rng) -> str:
+    parts = []
+    for _ in range(rng.choice([1, 1, 2, 3])):
+        parts.append(rng.choice(["", "a", "x y", "\\", '"', "?"]) + "?" * rng.randint(1, 6) + rng.choice(TRI_CHARS + TRI_CHARS + "a?"))
+    return "".join(parts)
+
+
 def gen_str(rng, allow_nul=True) -> str:
+    if rng.random() < 0.08:
+        return gen_qrun(rng)
     style = rng.random()
     n = rng.choice([0, 1, 1, 2, 2, 3, 3, 4, 5, 6, 8, 12]) if rng.random() < 0.97 else rng.randint(100, 200)
     out = []
@@ -522,6 +583,8 @@ def gen_name(rng, in_file: bool = False) -> str:
     through the whole pipeline, where the generated file also repeats it inside the leaf's variable) no LF/CR and no
     ", &", so that the harness can still cut the generated file into lines and find the variable."""
     r = rng.random()
+    if r < 0.1:
+        return gen_qrun(rng)
     if r < 0.35:
         return "".join(rng.choice(PLAIN) for _ in range(rng.randint(1, 10)))
     n = rng.randint(1, 10)
@@ -840,6 +903,15 @@ def unit_stream(ctx, consts: List[Tuple[Any, str]], label: str = "unit") -> List
     return recs
 
 
+def qrun_pipeline_cases(limit: int) -> List[Dict[str, Any]]:
+    """runs of `?` before a trigraph character in every string position of every backend (round robin)"""
+    spos = [p_ for p_ in POSITIONS if POSITIONS[p_]["kinds"] in ("all", "str")]
+    out = []
+    for i, q in enumerate(q_runs(embed=False) + q_runs()[1::4]):
+        out.append({"backend": list(BACKENDS)[i % 3], "pos": spos[(i // 3 + i) % len(spos)], "v": q, "qastle": i % 5 == 0})
+    return out[:limit]
+
+
 def pipeline_cases(ctx, n: int) -> List[Dict[str, Any]]:
     rng = ctx.rng
     cases = []
@@ -1015,11 +1087,11 @@ def line_block(i: int, backend: str, pos: str, line: str, decl: Optional[str]) -
     return None
 
 
-def run_line_echo(blocks: List[str]) -> Dict[str, Any]:
+def run_line_echo(blocks: List[str], std: Optional[str] = None) -> Dict[str, Any]:
     d = Path(tempfile.mkdtemp(prefix="c18l"))
     try:
         (d / "l.cpp").write_bytes((LINE_MOCK_HEAD + "".join(blocks) + "return 0; }\n").encode("utf-8"))
-        p = subprocess.run(["g++", "-w", "-O0", "l.cpp", "-o", "l"], cwd=d, capture_output=True, text=True, timeout=600)
+        p = subprocess.run(["g++", "-w", "-O0"] + ([f"-std={std}"] if std else []) + ["l.cpp", "-o", "l"], cwd=d, capture_output=True, text=True, timeout=600)
         if p.returncode != 0:
             return {"compile_error": p.stderr[:800]}
         r = subprocess.run(["./l"], cwd=d, capture_output=True, text=True, timeout=120)
@@ -1067,21 +1139,27 @@ def line_echo_stream(ctx, staged: List[Dict[str, Any]], n: int, workers: int):
             break
     chunks = [items[i : i + 150] for i in range(0, len(items), 150)]
 
-    def job(chunk):
-        return chunk, run_line_echo([line_block(i, st["c"]["backend"], st["c"]["pos"], st["found"][2], decl) for i, (st, decl) in enumerate(chunk)])
+    def job(a):
+        chunk, std = a
+        if std is not None:  # trigraph dialect: the lines that carry a string
+            chunk = [(st, decl) for st, decl in chunk if type(st["c"]["v"]) is str]
+        if not chunk:
+            return chunk, std, {"out": {}}
+        return chunk, std, run_line_echo([line_block(i, st["c"]["backend"], st["c"]["pos"], st["found"][2], decl) for i, (st, decl) in enumerate(chunk)], std)
 
     with concurrent.futures.ThreadPoolExecutor(max_workers=workers) as ex:
-        results = list(ex.map(job, chunks))
-    for chunk, res in results:
+        results = list(ex.map(job, [(c, None) for c in chunks] + [(c, "c++14") for c in chunks]))
+    for chunk, std, res in results:
+        label = std or "default"
         if "compile_error" in res:
             # which line? compile them one at a time (rare path)
             for st, decl in chunk:
-                one = run_line_echo([line_block(0, st["c"]["backend"], st["c"]["pos"], st["found"][2], decl)])
+                one = run_line_echo([line_block(0, st["c"]["backend"], st["c"]["pos"], st["found"][2], decl)], std)
                 if "compile_error" in one:
                     c = st["c"]
                     ctx.violation(
-                        key=f"line:{c['pos']}:{describe(c['v'])['kind']}:{describe(c['v']).get('v', describe(c['v']).get('repr'))}",
-                        what=f"g++ rejects the generated line `{st['found'][2].strip()}` ({c['backend']}, constant {c['v']!r} in position {c['pos']})",
+                        key=f"line:{label}:{c['pos']}:{describe(c['v'])['kind']}:{describe(c['v']).get('v', describe(c['v']).get('repr'))}",
+                        what=f"g++ ({label}) rejects the generated line `{st['found'][2].strip()}` ({c['backend']}, constant {c['v']!r} in position {c['pos']})",
                         case={"stream": "pipeline", "backend": c["backend"], "position": c["pos"], "via": st["via"], "const": describe(c["v"])},
                         observed=one["compile_error"][:300],
                         how="compile the generated line against a mock store / a mock method that echoes its argument",
@@ -1091,13 +1169,13 @@ def line_echo_stream(ctx, staged: List[Dict[str, Any]], n: int, workers: int):
         for i, (st, decl) in enumerate(chunk):
             c = st["c"]
             v = c["v"]
-            ctx.count(f"line-echo:{c['pos']}")
+            ctx.count(f"line-echo:{label}:{c['pos']}")
             got = res["out"].get(i)
             want = expected_in_column(v, decl) if c["pos"] == "column" else expected_echo(v)
             if got != want:
                 ctx.violation(
-                    key=f"line:{c['pos']}:{describe(v)['kind']}:{describe(v).get('v', describe(v).get('repr'))}",
-                    what=f"compiled with g++, the generated line `{st['found'][2].strip()}` ({c['backend']}) hands over {got}, the constant {v!r} is {want}",
+                    key=f"line:{label}:{c['pos']}:{describe(v)['kind']}:{describe(v).get('v', describe(v).get('repr'))}",
+                    what=f"compiled with g++ ({label}), the generated line `{st['found'][2].strip()}` ({c['backend']}) hands over {got}, the constant {v!r} is {want}",
                     case={"stream": "pipeline", "backend": c["backend"], "position": c["pos"], "via": st["via"], "const": describe(v)},
                     observed=str(got),
                     how="compile the generated line against a mock store / a mock method that echoes its argument",
@@ -1157,7 +1235,7 @@ def book_compare(ctx, case, backend, tree, impl_lines: Dict[str, List[str]], mod
                 continue
             want = tree if m["slot"]["kind"] == "tree" else m["name"]
             reqs.append({"op": "nameat", "off": m["slot"]["off"], "line": cp(il[k])})
-            where.append({"case": case, "backend": backend, "which": which, "want": want, "line": il[k], "key": known_key})
+            where.append({"case": case, "backend": backend, "which": which, "want": want, "line": il[k], "key": known_key, "off": m["slot"]["off"]})
     # second, table-independent oracle: the strings the implementation's booking lines carry
     names = [tree] + [m["name"] for m in model["book"] if m["name"] is not None]
     # (the leaf's variable is cut off: in a generated file it repeats the column name as an identifier, which is C02's business)
@@ -1189,17 +1267,57 @@ def book_judge(ctx, where, answers) -> int:
                     how="visitor.create_book_ttree_obj(tree, leaves).emit(...) / the pipeline with ResultTTree(..., names, tree, file)",
                 )
             continue
-        got = uncp(a.get("v"))
-        if got != w["want"]:
+        got, got_tri = uncp(a.get("v")), uncp(a.get("vtri"))
+        if got != w["want"] or got_tri != w["want"]:
             bad += 1
+            dialect = "" if got != w["want"] else " under trigraph replacement (ISO C++ before C++17)"
             ctx.violation(
                 key=w["key"] or f"name:{w['backend']}:{w['which']}:{w['want']!r}",
-                what=f"on {w['backend']}: the {w['which']} line `{w['line']}` does not carry the name {w['want']!r} as a C++ string literal (the literal there denotes {got!r})",
+                what=f"on {w['backend']}: the {w['which']} line `{w['line']}` does not carry the name {w['want']!r} as a C++ string literal{dialect} (the literal there denotes {(got if got != w['want'] else got_tri)!r})",
                 case=w["case"],
-                observed={"line": w["line"], "literal_denotes": got},
+                observed={"line": w["line"], "literal_denotes": got, "literal_denotes_with_trigraphs": got_tri},
                 how="visitor.create_book_ttree_obj(tree, leaves).emit(...) / the pipeline with ResultTTree(..., names, tree, file)",
             )
+        elif a.get("rest") is not None and len(NAME_LITERALS) < 4000:
+            # the literal itself, for g++ -std=c++14 (names_echo)
+            rest = uncp(a["rest"])
+            lit_end = len(w["line"]) - len(rest)
+            off = w.get("off", 0)
+            NAME_LITERALS.append((w["want"], w["line"][off:lit_end], w["backend"], w["case"]))
     return bad
+
+
+NAME_LITERALS: List[Tuple[str, str, str, Any]] = []
+
+
+def names_echo(ctx, n: int):
+    """g++ -std=c++14 (trigraphs active) and the default dialect on the literals found at the name places"""
+    seen, items = set(), []
+    for want, lit, b, case in NAME_LITERALS:
+        if (want, lit) in seen or has_surrogate(want):
+            continue
+        seen.add((want, lit))
+        items.append((want, lit, b, case))
+        if len(items) >= n:
+            break
+    del NAME_LITERALS[:]
+    for std in (None, "c++14"):
+        for i in range(0, len(items), 400):
+            chunk = items[i : i + 400]
+            res = run_echo([("S", lit) for _, lit, _, _ in chunk], std)
+            label = std or "default"
+            if "compile_error" in res:
+                for want, lit, b, case in chunk:
+                    one = run_echo([("S", lit)], std)
+                    if "compile_error" in one:
+                        ctx.violation(key=f"echo-name:{label}:{want!r}", what=f"g++ ({label}) rejects the literal `{lit}` emitted for the name {want!r} on {b}", case=case, observed=one["compile_error"][:300], how="compile the literal found at the name's place of the booking line")
+                        break
+                continue
+            for k, (want, lit, b, case) in enumerate(chunk):
+                ctx.count(f"echo-name:{label}")
+                got = res["out"].get(k)
+                if got != ("S", want.encode("utf-8")):
+                    ctx.violation(key=f"echo-name:{label}:{want!r}", what=f"compiled with g++ ({label}), the literal `{lit}` emitted for the name {want!r} on {b} is {got}", case=case, observed=str(got), how="compile the literal found at the name's place of the booking line")
 
 
 def check_book_lines(ctx, case, backend, tree, leaves, impl_lines, model, stream: str, known_key: Optional[str] = None) -> bool:
@@ -1237,6 +1355,8 @@ def book_stream(ctx, n: int):
         tree = gen_name(rng)
         leaves = [(gen_name(rng), "_v%d" % k) for k in range(rng.choice([1, 1, 2, 3]))]
         cases.append((b, tree, leaves))
+    for i, q in enumerate(q_runs(embed=False) + q_runs()[2::4]):
+        cases.append((list(BACKENDS)[i % 3], q if i % 2 == 0 else "t" + q, [(q[::-1] + q if i % 3 == 0 else q, "_v0"), ("x" + q + "y", "_v1")]))
     kept = cases  # every name: the theorem has no hypothesis since the names are escaped
     models = model_books(ctx, kept)
     reqs, where = [], []
@@ -1266,6 +1386,9 @@ def names_pipeline_stream(ctx, n: int):
         coll = BACKENDS[b]["coll"]
         style = ["ttree", "dict"][(i // 3) % 2]
         n1, n2, t = gen_name(rng, in_file=True), gen_name(rng, in_file=True), gen_name(rng)
+        if i % 5 == 0:
+            qs = q_runs(embed=False)
+            n1, t = qs[(7 * i) % len(qs)], "t" + qs[(11 * i + 3) % len(qs)]
         if n1 == n2:
             n2 = n2 + "x"
         if style == "ttree":
@@ -1698,6 +1821,7 @@ def run(ctx):
     # unit stream: the six constants of the repo's tests first, then generated ones
     prelude = ['say "hi"\\n', -1234567890, 1.5e-07, float("inf"), "caf\u00e9 \U0001f600?", 1.7976931348623157e308, None]
     consts: List[Tuple[Any, str]] = [(v, "atlas") for v in prelude] + [(v, b) for b in BACKENDS for v in ["hi", 1, 1.5, True, False, ""] + INT_EDGES + FLOAT_EDGES + ['a"b', "a\\b", "a\nb", "??/", "\0", "\u00e9", "\U0001f600"]]
+    consts += [(q, list(BACKENDS)[i % 3]) for i, q in enumerate(q_runs())]
     n_unit = 60000 if thorough else 6000
     backs = list(BACKENDS)
     for i in range(n_unit):
@@ -1705,7 +1829,7 @@ def run(ctx):
     recs = unit_stream(ctx, consts)
     _tick(ctx, "unit")
     ctx.check_time()
-    staged = pipeline_stream(ctx, pipeline_cases(ctx, 6000 if thorough else 240))
+    staged = pipeline_stream(ctx, qrun_pipeline_cases(400 if thorough else 72) + pipeline_cases(ctx, 6000 if thorough else 240))
     _tick(ctx, "pipeline")
     line_echo_stream(ctx, staged, 2400 if thorough else 100, workers)
     _tick(ctx, "g++ line echo")
@@ -1713,9 +1837,10 @@ def run(ctx):
     book_stream(ctx, 9000 if thorough else 600)
     _tick(ctx, "book")
     names_pipeline_stream(ctx, 1500 if thorough else 90)
+    names_echo(ctx, 3000 if thorough else 300)
     _tick(ctx, "names")
     ctx.check_time()
-    echo_stream(ctx, recs, 12000 if thorough else 400, workers)
+    echo_stream(ctx, recs, 12000 if thorough else 700, workers)
     _tick(ctx, "g++ echo")
     lexer_validation(ctx, thorough)
     _tick(ctx, "lexer validation")
@@ -1738,6 +1863,7 @@ def search(ctx, broken):
         consts = [(gen_const(ctx.rng), list(BACKENDS)[i % 3]) for i in range(20000)]
         # targeted: every character the regenerated escape table has a row for (what a broken table theorem is about),
         # every character of the special alphabet alone and doubled, every edge number
+        consts += [(q, list(BACKENDS)[i % 3]) for i, q in enumerate(q_runs())]
         for c_, _img in _LINES_CACHE.get("rows", [])[:2000]:
             consts += [(chr(c_), "atlas"), ("a" + chr(c_) + "b", "cms_aod")]
         for b in BACKENDS:
@@ -1746,7 +1872,7 @@ def search(ctx, broken):
             consts += [(v, b) for v in INT_EDGES + FLOAT_EDGES + [True, False]]
         unit_stream(ctx, consts, label="search")
         if not ctx.violations:
-            pipeline_stream(ctx, pipeline_cases(ctx, 900))
+            pipeline_stream(ctx, qrun_pipeline_cases(400) + pipeline_cases(ctx, 900))
         if not ctx.violations:
             book_stream(ctx, 1500)
             names_pipeline_stream(ctx, 150)
